@@ -29,7 +29,16 @@ struct AggCase {
 }
 
 fn agg_case(tier: Tier) -> impl Strategy<Value = AggCase> {
-    (raw_pair(len_strategy(tier, 24, 200)), 0usize..5, any::<u16>(), any::<u8>(), any::<u16>(), any::<u64>()).prop_map(|(rp, e, ms, src, sel, pseed)| {
+    agg_case_len(len_strategy(tier, 24, 200).boxed())
+}
+
+/// series longer than any block / chunk size an implementation might use (65..=400 elements)
+fn agg_case_long(_tier: Tier) -> impl Strategy<Value = AggCase> {
+    agg_case_len((65usize..=400).boxed())
+}
+
+fn agg_case_len(len: BoxedStrategy<usize>) -> impl Strategy<Value = AggCase> {
+    (raw_pair(len), 0usize..5, any::<u16>(), any::<u8>(), any::<u16>(), any::<u64>()).prop_map(|(rp, e, ms, src, sel, pseed)| {
         let enc = [Enc::F64, Enc::OptF64, Enc::I32, Enc::OptI32, Enc::F32][e];
         let tin = match enc {
             Enc::F64 => InT::F64,
@@ -379,6 +388,57 @@ where
     Ok(())
 }
 
+/// extrema, arg-extrema, first / last and counts on float series that contain infinite elements
+/// (an infinite element is a valid, ordered value; sums and moments are not asked here)
+fn inf_typed<T>(c: &AggCase, x: &Series, obs: &mut Obs) -> CheckResult
+where
+    T: InElem + OutElem + tevec::prelude::IsNone + PartialEq,
+    T::Inner: tevec::prelude::Number + OutElem + PartialOrd + PartialEq,
+{
+    let d: Vec<T> = materialize(x);
+    let valid: Vec<f64> = x.iter().filter_map(|v| *v).collect();
+    let mx = valid.iter().cloned().fold(None, |a: Option<f64>, v| Some(a.map_or(v, |a| a.max(v))));
+    let mn = valid.iter().cloned().fold(None, |a: Option<f64>, v| Some(a.map_or(v, |a| a.min(v))));
+    let g = with_src!(c, d, |it| sa::vmax(it)).and_then(|v| v.to_logical());
+    if g != mx {
+        return fail("vmax:inf", format!("vmax of {:?} = {:?}, maximum of the valid elements is {:?}", x, g, mx));
+    }
+    let g = with_src!(c, d, |it| sa::vmin(it)).and_then(|v| v.to_logical());
+    if g != mn {
+        return fail("vmin:inf", format!("vmin of {:?} = {:?}, minimum of the valid elements is {:?}", x, g, mn));
+    }
+    arg_typed::<T>(c, x, obs)?;
+    counts_typed::<T>(c, x, obs)
+}
+
+fn check_inf(c: &AggCase, obs: &mut Obs) -> CheckResult {
+    // replace elements by +-inf according to the permutation keys: mode 0 every valid element +inf,
+    // 1 every valid element -inf, otherwise a scattering of both
+    let mode = c.sel % 5;
+    let x: Series = c
+        .x
+        .iter()
+        .zip(c.perm.iter())
+        .map(|(v, k)| {
+            v.map(|v| match (mode, k % 4) {
+                (0, _) => f64::INFINITY,
+                (1, _) => f64::NEG_INFINITY,
+                (_, 0) => f64::INFINITY,
+                (_, 1) => f64::NEG_INFINITY,
+                _ => v,
+            })
+        })
+        .collect();
+    let n_inf = x.iter().flatten().filter(|v| v.is_infinite()).count();
+    obs.set_nontrivial(n_inf >= 1 && x.len() >= 2);
+    obs.class_if(mode <= 1 && n_inf >= 1, "every_valid_element_infinite");
+    match c.enc {
+        Enc::F32 => inf_typed::<f32>(c, &x, obs),
+        Enc::OptF64 | Enc::OptI32 => inf_typed::<Option<f64>>(c, &x, obs),
+        _ => inf_typed::<f64>(c, &x, obs),
+    }
+}
+
 fn check_extrema(c: &AggCase, obs: &mut Obs) -> CheckResult {
     nontrivial(c, obs);
     by_enc_nullable!(c, arg_typed, c, &c.x, obs)?;
@@ -463,16 +523,21 @@ fn main() {
     let _ = Tri::Any;
     let mut p = Property::new(
         "C11",
-        "cases = (pair of series of length 0..=24 (thorough ..=200) from all value classes (incl. constant, heavy ties) x null patterns (incl. all-null), element type f64 / Option<f64> / i32 / Option<i32> / f32, min_periods 0..=len+1, iterator source {owned Vec, borrowed titer, VecDeque}, a permutation, a probe value) per function group; oracle = textbook definition on the non-null (pairwise-complete) elements with the null law 'null exactly when valid count < max(min_periods, intrinsic minimum) or the statistic is undefined', tolerance DESIGN 5.9 (H = 0) and EPS band 5.6; symmetric functions are re-evaluated on a permutation of the input against the same (permutation-invariant) reference. \
+        "cases = (pair of series of length 0..=24 (thorough ..=200; `long:` sub-properties 65..=400 in both tiers) from all value classes (incl. constant, heavy ties) x null patterns (incl. all-null), element type f64 / Option<f64> / i32 / Option<i32> / f32, min_periods 0..=len+1, iterator source {owned Vec, borrowed titer, VecDeque}, a permutation, a probe value) per function group; oracle = textbook definition on the non-null (pairwise-complete) elements with the null law 'null exactly when valid count < max(min_periods, intrinsic minimum) or the statistic is undefined', tolerance DESIGN 5.9 (H = 0) and EPS band 5.6; symmetric functions are re-evaluated on a permutation of the input against the same (permutation-invariant) reference. \
          Non-trivial = >= 4 valid elements, a tie, and (for nullable element types) a null not in first position; distinct = distinct serialised cases",
     )
     .assume("plain AggBasic functions receive null-free data (DESIGN 5.1)")
-    .assume("f32 inputs use values whose sums are exact in f32");
+    .assume("f32 inputs use values whose sums are exact in f32")
+    .assume("infinite elements are generated for extrema / arg-extrema / first / last / counts only (sums and moments of infinite data are outside the property, DESIGN 5.2)");
     p.add(sub("counts_first_last", 12000, 400000, agg_case, check_counts));
     p.add(sub("any_all", 6000, 200000, agg_case, check_bool));
     p.add(sub("sum_mean_moments_extrema", 20000, 600000, agg_case, check_moments));
     p.add(sub("arg_extrema_plain", 12000, 400000, agg_case, check_extrema));
     p.add(sub("masked_sum_mean", 12000, 400000, agg_case, check_filter));
     p.add(sub("cov_corr", 12000, 400000, agg_case, check_two));
+    p.add(sub("extrema_with_infinities", 6000, 200000, agg_case, check_inf));
+    p.add(sub("long:sum_mean_moments_extrema", 1500, 40000, agg_case_long, check_moments));
+    p.add(sub("long:masked_sum_mean", 800, 20000, agg_case_long, check_filter));
+    p.add(sub("long:cov_corr", 800, 20000, agg_case_long, check_two));
     main_for(p);
 }
